@@ -31,8 +31,9 @@ RULES = {
     'R14': 'a signal callback may delete its own registration: the delivery being dispatched is noted, qb_loop_signal_del detaches it (clears its cloned_from), and after the callback the registration is dereferenced only where it is still attached',
     'R15': 'a full table is an error, not an abort: where an add asks a helper for a free slot and the helper can hand back the (negative) result of the failed table growth, that result is tested before it is used as a slot index - in the descriptor add and in the timer add (the table holds 65536 entries; slots of deleted descriptors come back only at the next poll)',
     'R16': 'jobs of one priority run in the order they were added (= C10.R3): items are appended at the tail of their level, waiting jobs are spliced to the tail, the dispatcher takes from the head',
+    'R17': 'a delivered signal reaches every registration for its number: in _qb_signal_add_to_jobs_ the walk over the registrations goes on after a match (the loop head is reachable again from the place where a job was queued)',
 }
-FLOORS = {'R16': 4, 'R1': 6, 'R2': 6, 'R3': 12, 'R4': 9, 'R5': 3, 'R6': 7, 'R7': 1, 'R8': 2, 'R9': 1, 'R10': 1, 'R11': 2, 'R12': 2, 'R13': 1, 'R14': 3, 'R15': 2}
+FLOORS = {'R17': 1, 'R16': 4, 'R1': 6, 'R2': 6, 'R3': 12, 'R4': 9, 'R5': 3, 'R6': 7, 'R7': 1, 'R8': 2, 'R9': 1, 'R10': 1, 'R11': 2, 'R12': 2, 'R13': 1, 'R14': 3, 'R15': 2}
 
 
 def run(ctx):
@@ -54,6 +55,7 @@ def run(ctx):
     r14(ctx)
     todo_accounting(ctx, 'R1')
     r15(ctx)
+    r17(ctx)
     # R16 = C10.R3: jobs of one priority run in the order they were added - appended at the tail, promoted to the tail, taken from the head
     from rules import c10
     pr = ctx.prog.enum('qb_loop_priority')
@@ -793,3 +795,19 @@ def r15(ctx):
                           % callee_of(unwrap(rhs)), {'path': f.path_lines(path) if path else None})
     if n < 2:
         raise AnalysisBroken('R15: %d call sites of slot finders (descriptor add and timer add expected)' % n)
+
+
+def r17(ctx):
+    f = ctx.prog.fn('_qb_signal_add_to_jobs_')
+    adds = [ev for ev in f.events('CALL') if ev.callee == 'qb_loop_level_item_add']
+    if not adds:
+        raise AnalysisBroken('_qb_signal_add_to_jobs_: no job is queued')
+    loops = f.natural_loops()
+    if not loops:
+        raise AnalysisBroken('_qb_signal_add_to_jobs_: no loop over the registrations')
+    for ev in adds:
+        # a block from which the loop's back edge can no longer be reached is not part of the natural loop: that is the `break`
+        back = any(ev.blk in loops[h] for h in loops)
+        ctx.check('R17', 'signal:every-registration-gets-its-job', bool(back), ev,
+                  'after a job was queued for one registration the walk over the registrations goes on',
+                  'the walk over the registrations stops at the first one that matches: with two registrations for the same signal only the first callback runs on delivery')
